@@ -130,7 +130,7 @@ def build(arch, dtype, seed, nested):
             mods.append(m)
         xshape = (2, 4, 5, 5)
     else:
-        feats = [16, 32, 32, 8]
+        feats = [192, 256, 8, 8] if kinds == ["Linear", "Linear"] else [16, 32, 32, 8]
         fi = 0
         cur = feats[0]
         for k in kinds:
@@ -143,7 +143,7 @@ def build(arch, dtype, seed, nested):
             else:
                 m = torch.nn.ReLU()
             mods.append(m)
-        xshape = (3, 16)
+        xshape = (3, feats[0])
     for m in mods:
         for p in m.parameters():
             with torch.no_grad():
@@ -553,6 +553,13 @@ class Runner:
         else:
             if target == "default":
                 quantize(new)
+            elif target == "otherq":
+                qa, kw = self.qargs
+                other = {"qint8": "qint4", "qfloat8": "qint8", "qint4": "qfloat8", "qint2": "qint8"}[qa["wq"]]
+                kw2 = dict(kw, weights=qtypes[other])
+                leaves = leaf_modules(new)
+                sel = [leaves[0][1]] if qa["filter"] == "first" else [leaves[-1][1]] if qa["filter"] == "last" else None
+                quantize(new, modules=sel, **kw2)
             else:
                 qa, kw = self.qargs
                 leaves = leaf_modules(new)
@@ -570,6 +577,18 @@ class Runner:
         ev["mods_saved"] = self.saved_proj
         ev["sd_resaved"] = sd_projection(self.model.state_dict())
         ev["sd_loaded_from"] = sd_projection(self.saved)
+
+    def do_ForeignBatch(self, a, ev):
+        other, xshape = build(["Linear", "Other", "Linear"], self.dtype, 123, False)
+        kw = dict(self.qargs[1]) if self.qargs else {"weights": qtypes["qint8"]}
+        kw.setdefault("activations", qtypes["qint8"])
+        quantize(other, **kw)
+        before = project_model(self.model)
+        g = torch.Generator().manual_seed(77)
+        with torch.no_grad():
+            other(torch.randn(xshape, generator=g).to(self.dtype) * 5)
+        ev["ours_unchanged"] = project_model(self.model) == before
+        ev["foreign_updated"] = any(isinstance(m, QModuleMixin) and float(m.output_scale) != 1.0 for _, m in leaf_modules(other))
 
     def do_LibCall(self, a, ev):
         from optimum.quanto import quantize_weight
